@@ -193,7 +193,8 @@ func MannWhitneyUTest(x1, x2 []float64, alt LocationHypothesis) (*MannWhitneyUTe
 			p = dist.CDF(U1)
 
 		case LocationGreater:
-			p = 1 - dist.CDF(U1-1)
+			// With ties, U moves in steps of dist.Step().
+			p = 1 - dist.CDF(U1-dist.Step())
 		}
 	} else {
 		// Use normal approximation (with tie and continuity
